@@ -206,6 +206,8 @@ def simulate(spec, b=None):
     lock = LockLog()
     lock.attach(solver)
     tr['ops'] = []
+    stops = {}      # the same stop-condition description is the same StopCondition *object* across runs (users reuse them)
+    import json as _json
     for i, op in enumerate(spec['ops']):
         rec = {'op': op['op'], 'n_before': len(pt.time), 'pwm_before': float(motor.pwm),
                'locked_before': bool(getattr(solver, '_Solver__powertrain_is_locked', False))}
@@ -213,7 +215,7 @@ def simulate(spec, b=None):
             if op['op'] == 'run':
                 solver.run(time_discretization=Q('TimeInterval', op['dt']), simulation_time=Q('TimeInterval', op['T']),
                            motor_control=b.control if op.get('ctrl', True) else None,
-                           stop_condition=make_stop(b, op.get('stop')))
+                           stop_condition=stops.setdefault(_json.dumps(op.get('stop'), sort_keys=True), make_stop(b, op.get('stop'))))
             elif op['op'] == 'reset':
                 pt.reset()
                 lock.flags = []
